@@ -132,7 +132,7 @@ def missing_positional_at(specs, groups, j):
 class C18(Prop):
     id = "C18"
     corr_module = "Corr.C18Corr"
-    quick_n = 3000
+    quick_n = 2400
     thorough_n = 25000
     shard_size = 60
     rule = ("metamorphic triples over the real Program two-pass parse: a well-formed task invocation "
